@@ -64,7 +64,8 @@ Variable bval : nat -> option bool.
 Hypothesis Hbfi : forall x, p_impl nd = Some x \/ p_avail nd = Some x \/ p_lock nd = Some x -> okb (bfi x).
 Hypothesis Hrd : forall m, In m (refs nd) -> kind_of s m <> KCommand -> okb (rd m).
 Hypothesis Hwr : forall m, In m (refs nd) -> okb (wr m).
-Hypothesis Hvl : forall idx es d, nvalue nd = VPIndex idx es d -> ival idx <> None -> exists i, vl idx = Ok i.
+Hypothesis Hvl : forall idx es d, nvalue nd = VPIndex idx es d -> In idx (refs nd) -> ival idx <> None ->
+  exists i, vl idx = Ok i.
 Hypothesis Hok : NodeOk s ival bval nd.
 
 Lemma nid_r_ok m : In m (refs nd) -> okb (nid_r s rd m).
@@ -94,7 +95,7 @@ Lemma pindex_ok (g : iop -> outcome bool) idx es d :
 Proof.
   intros V Hin K I G. rewrite (proj2 (is_iinteger_spec _) K).
   apply andl_ok; [apply Hrd; auto using integer_not_command|].
-  destruct (Hvl idx es d V I) as [i ->]. simpl. apply G.
+  destruct (Hvl idx es d V Hin I) as [i ->]. simpl. apply G.
 Qed.
 
 Lemma select_in_refs K idx es d : nvalue nd = VPIndex idx es d ->
@@ -109,7 +110,7 @@ Qed.
 
 Lemma readable_step_ok : nkind nd <> KCommand -> okb (readable_step c s rd vl bfi nd).
 Proof.
-  intros NC. destruct Hok as (HQ & _ & HK). unfold readable_step. cbv zeta.
+  intros NC. pose proof Hok as (HQ & _ & HK). unfold readable_step. cbv zeta.
   pose proof (base_r_ok bfi nd Hbfi) as B.
   assert (HT : forall m, In m (match nkind nd with
         | KInteger | KFloat | KBoolean | KEnumeration | KCommand | KString => vsrc_refs (nvalue nd)
@@ -120,43 +121,43 @@ Proof.
   destruct (nkind nd) eqn:K; simpl in HQ; try contradiction; try congruence;
     try (apply andl_ok; [exact B | apply okb_ok]).
   - (* Integer *)
-    apply andl_ok; [exact B|]. destruct (nvalue nd) as [i|p cs|idx es d] eqn:V; simpl in HK.
+    apply andl_ok; [exact B|]. case_eq (nvalue nd); [intros i V|intros p cs V|intros idx es d V]; rewrite V in HK, HT; simpl in HK; rewrite ?V.
     + apply iop_r_ok. intros m ->. apply HT; simpl; auto.
     + apply nid_r_ok. apply HT; simpl; auto.
     + destruct HK as (KI & I & _ & _). apply pindex_ok; auto. { apply HT; simpl; auto. }
       intros i. apply iop_r_ok. intros m S. eapply select_in_refs; eauto.
   - (* IntConverter *)
-    destruct HK as [KP KV]. repeat apply andl_ok; [exact B | apply var_r_ok; auto; apply HT; simpl; auto |].
+    destruct HK as [KP KV]. apply andl_ok; [apply andl_ok; [exact B | apply var_r_ok; auto; apply HT; simpl; auto] |].
     apply all_amp_ok. intros m Hm. apply var_r_ok; auto. apply HT; simpl; auto.
   - (* IntSwissKnife *)
     apply andl_ok; [exact B|]. apply all_amp_ok. intros m Hm. apply var_r_ok; auto.
   - (* Float *)
-    apply andl_ok; [exact B|]. destruct (nvalue nd) as [i|p cs|idx es d] eqn:V; simpl in HK.
+    apply andl_ok; [exact B|]. case_eq (nvalue nd); [intros i V|intros p cs V|intros idx es d V]; rewrite V in HK, HT; simpl in HK; rewrite ?V.
     + apply iop_r_ok. intros m ->. apply HT; simpl; auto.
     + apply nid_r_ok. apply HT; simpl; auto.
     + destruct HK as (KI & I & _ & _). apply pindex_ok; auto. { apply HT; simpl; auto. }
       intros i. apply iop_r_ok. intros m S. eapply select_in_refs; eauto.
   - (* Converter *)
-    destruct HK as [KP KV]. repeat apply andl_ok; [exact B | apply var_r_ok; auto; apply HT; simpl; auto |].
+    destruct HK as [KP KV]. apply andl_ok; [apply andl_ok; [exact B | apply var_r_ok; auto; apply HT; simpl; auto] |].
     apply all_amp_ok. intros m Hm. apply var_r_ok; auto. apply HT; simpl; auto.
   - (* SwissKnife *)
     destruct (sk_checks_vars c); [|exact B].
     apply andl_ok; [exact B|]. apply all_amp_ok. intros m Hm. apply var_r_ok; auto.
   - (* String *)
-    apply andl_ok; [exact B|]. destruct HK as (i & V & KS). rewrite V in *. destruct i as [v|k|m]; try apply okb_ok.
+    apply andl_ok; [exact B|]. destruct HK as (i & V & KS). rewrite V; rewrite V in HT. destruct i as [v|k|m]; try apply okb_ok.
     unfold str_q. rewrite (proj2 (is_istring_spec _) (KS m eq_refl)).
     apply Hrd; [apply HT; simpl; auto | apply string_not_command, KS; reflexivity].
   - (* Boolean *)
-    apply andl_ok; [exact B|]. destruct HK as (i & V & _). rewrite V in *.
+    apply andl_ok; [exact B|]. destruct HK as (i & V & _). rewrite V; rewrite V in HT.
     apply iop_r_ok. intros m ->. apply HT; simpl; auto.
   - (* Enumeration *)
-    apply andl_ok; [exact B|]. destruct HK as (i & V & _). rewrite V in *.
+    apply andl_ok; [exact B|]. destruct HK as (i & V & _). rewrite V; rewrite V in HT.
     apply iop_r_ok. intros m ->. apply HT; simpl; auto.
 Qed.
 
 Lemma writable_step_ok : okb (writable_step c s wr rd vl bfi nd).
 Proof.
-  destruct Hok as (HQ & _ & HK). unfold writable_step. cbv zeta.
+  pose proof Hok as (HQ & _ & HK). unfold writable_step. cbv zeta.
   pose proof (base_w_ok bfi nd Hbfi) as B.
   assert (HT : forall m, In m (match nkind nd with
         | KInteger | KFloat | KBoolean | KEnumeration | KCommand | KString => vsrc_refs (nvalue nd)
@@ -167,37 +168,271 @@ Proof.
   destruct (nkind nd) eqn:K; simpl in HQ; try contradiction; try apply okb_ok;
     try (apply andl_ok; [exact B | apply okb_ok]).
   - (* Integer *)
-    apply andl_ok; [exact B|]. destruct (nvalue nd) as [i|p cs|idx es d] eqn:V; simpl in HK.
+    apply andl_ok; [exact B|]. case_eq (nvalue nd); [intros i V|intros p cs V|intros idx es d V]; rewrite V in HK, HT; simpl in HK; rewrite ?V.
     + apply iop_w_ok. intros m ->. apply HT; simpl; auto.
     + destruct (nid_w_ok p) as [b ->]; [apply HT; simpl; auto|]. simpl.
       apply all_amp_ok. intros m Hm. apply nid_w_ok. apply HT; simpl; auto.
     + destruct HK as (KI & I & _ & _). apply pindex_ok; auto. { apply HT; simpl; auto. }
       intros i. apply iop_w_ok. intros m S. eapply select_in_refs; eauto.
   - (* IntConverter *)
-    destruct HK as [KP KV]. repeat apply andl_ok; [exact B | apply var_w_ok; auto; apply HT; simpl; auto |].
+    destruct HK as [KP KV]. apply andl_ok; [apply andl_ok; [exact B | apply var_w_ok; auto; apply HT; simpl; auto] |].
     apply all_amp_ok. intros m Hm. apply var_r_ok; auto. apply HT; simpl; auto.
   - (* Float *)
-    apply andl_ok; [exact B|]. destruct (nvalue nd) as [i|p cs|idx es d] eqn:V; simpl in HK.
+    apply andl_ok; [exact B|]. case_eq (nvalue nd); [intros i V|intros p cs V|intros idx es d V]; rewrite V in HK, HT; simpl in HK; rewrite ?V.
     + apply iop_w_ok. intros m ->. apply HT; simpl; auto.
     + destruct (nid_w_ok p) as [b ->]; [apply HT; simpl; auto|]. simpl.
       apply all_amp_ok. intros m Hm. apply nid_w_ok. apply HT; simpl; auto.
     + destruct HK as (KI & I & _ & _). apply pindex_ok; auto. { apply HT; simpl; auto. }
       intros i. apply iop_w_ok. intros m S. eapply select_in_refs; eauto.
   - (* Converter *)
-    destruct HK as [KP KV]. repeat apply andl_ok; [exact B | apply var_w_ok; auto; apply HT; simpl; auto |].
+    destruct HK as [KP KV]. apply andl_ok; [apply andl_ok; [exact B | apply var_w_ok; auto; apply HT; simpl; auto] |].
     apply all_amp_ok. intros m Hm. apply var_r_ok; auto. apply HT; simpl; auto.
   - (* String *)
-    apply andl_ok; [exact B|]. destruct HK as (i & V & KS). rewrite V in *. destruct i as [v|k|m]; try apply okb_ok.
+    apply andl_ok; [exact B|]. destruct HK as (i & V & KS). rewrite V; rewrite V in HT. destruct i as [v|k|m]; try apply okb_ok.
     unfold str_q. rewrite (proj2 (is_istring_spec _) (KS m eq_refl)). apply Hwr, HT; simpl; auto.
   - (* Boolean *)
-    apply andl_ok; [exact B|]. destruct HK as (i & V & _). rewrite V in *.
+    apply andl_ok; [exact B|]. destruct HK as (i & V & _). rewrite V; rewrite V in HT.
     apply iop_w_ok. intros m ->. apply HT; simpl; auto.
   - (* Command *)
-    apply andl_ok; [exact B|]. destruct HK as (i & V & _). rewrite V in *.
+    apply andl_ok; [exact B|]. destruct HK as (i & V & _). rewrite V; rewrite V in HT.
     apply iop_w_ok. intros m ->. apply HT; simpl; auto.
   - (* Enumeration *)
-    apply andl_ok; [exact B|]. destruct HK as (i & V & _). rewrite V in *.
+    apply andl_ok; [exact B|]. destruct HK as (i & V & _). rewrite V; rewrite V in HT.
     apply iop_w_ok. intros m ->. apply HT; simpl; auto.
 Qed.
 
 End StepOk.
+
+(* ------------------------------------------------------------------ the queries never fail *)
+Section Total.
+Variable s : store.
+Variable rank : nat -> nat.
+Hypothesis Hac : Acyclic s rank.
+Variable F : nat.
+Hypothesis HF : forall m, rank m < F.
+Variable st : state.
+Let IV := iv s F st.
+Let BV := bv s F st.
+
+Lemma ctl_ok_of : forall f nd x, (forall m, In m (refs nd) -> rank m < f) -> NodeOk s IV BV nd ->
+  p_impl nd = Some x \/ p_avail nd = Some x \/ p_lock nd = Some x -> okb (bool_from_id s f st x).
+Proof.
+  intros f nd x Hrank (_ & D & _) Hx.
+  apply (decided_iff s rank Hac F HF st f x).
+  - apply Hrank. destruct Hx as [H|[H|H]]; eauto using refs_impl, refs_avail, refs_lock.
+  - apply D, Hx.
+Qed.
+
+Lemma vl_ok_of : forall f nd idx, (forall m, In m (refs nd) -> rank m < f) ->
+  In idx (refs nd) -> IV idx <> None -> exists i, val s f st idx = Ok i.
+Proof.
+  intros f nd idx Hrank Hin I. rewrite (val_stable s rank Hac f F) by auto.
+  unfold IV, iv in I. destruct (val s F st idx) as [i| |]; [eauto | congruence | congruence].
+Qed.
+
+Lemma kind_of_nth : forall n nd, nth_error s n = Some nd -> kind_of s n = nkind nd.
+Proof. intros n nd E. unfold kind_of. rewrite E. reflexivity. Qed.
+
+Lemma readable_total_fuel : forall c fuel n, rank n < fuel -> Evaluable s IV BV n ->
+  kind_of s n <> KCommand -> okb (is_readable c s fuel st n).
+Proof.
+  intros c. induction fuel as [|f IH]; intros n Hn Ev NC; [lia|].
+  destruct Ev as [n nd E OK Sub]. cbn [is_readable]. rewrite E.
+  assert (Hrank : forall m, In m (refs nd) -> rank m < f)
+    by (intros m Hm; pose proof (Hac _ _ _ E Hm); lia).
+  eapply readable_step_ok with (ival := IV) (bval := BV).
+  - intros x Hx. eapply ctl_ok_of; eauto.
+  - intros m Hm K. apply IH; auto.
+  - intros idx es d _ Hin I. eapply vl_ok_of; eauto.
+  - exact OK.
+  - rewrite <- (kind_of_nth n nd E). exact NC.
+Qed.
+
+Lemma writable_total_fuel : forall c fuel n, rank n < fuel -> Evaluable s IV BV n ->
+  okb (is_writable c s fuel st n).
+Proof.
+  intros c. induction fuel as [|f IH]; intros n Hn Ev; [lia|].
+  destruct Ev as [n nd E OK Sub]. cbn [is_writable]. rewrite E.
+  assert (Hrank : forall m, In m (refs nd) -> rank m < f)
+    by (intros m Hm; pose proof (Hac _ _ _ E Hm); lia).
+  eapply writable_step_ok with (ival := IV) (bval := BV).
+  - intros x Hx. eapply ctl_ok_of; eauto.
+  - intros m Hm K. apply readable_total_fuel; auto.
+  - intros m Hm. apply IH; auto.
+  - intros idx es d _ Hin I. eapply vl_ok_of; eauto.
+  - exact OK.
+Qed.
+
+(* completeness of is_writable from the local hypothesis (instead of the global LocksDecided) *)
+Lemma writable_complete_fuel : forall fuel n, rank n < fuel -> Evaluable s IV BV n ->
+  Writable s IV BV n -> is_writable fixed_cfg s fuel st n = Ok true.
+Proof.
+  induction fuel as [|f IH]; intros n Hn Ev W; [lia|].
+  destruct Ev as [n nd E OK Sub]. cbn [is_writable]. rewrite E.
+  assert (Hrank : forall m, In m (refs nd) -> rank m < f)
+    by (intros m Hm; pose proof (Hac _ _ _ E Hm); lia).
+  apply (Writable_char s F st n) in W. destruct W as (nd' & E' & NW).
+  rewrite E in E'. injection E' as <-.
+  apply (writable_step_iff s rank Hac F HF st f nd Hrank (is_writable fixed_cfg s f st)
+           (is_readable fixed_cfg s f st) (Writable s IV BV)).
+  - intros x L. destruct OK as (_ & D & _). apply D. auto.
+  - intros m Hm. split.
+    + apply (writable_iff_fuel s rank Hac F HF st f m). auto.
+    + apply IH; auto.
+  - intros m Hm. apply (readable_iff_fuel s rank Hac F HF st f m). auto.
+  - exact NW.
+Qed.
+
+End Total.
+
+(* ================================================================== results *)
+Theorem readable_exactly : forall s rank F st n, Acyclic s rank -> (forall m, rank m < F) ->
+  Evaluable s (iv s F st) (bv s F st) n -> kind_of s n <> KCommand ->
+  exists b, is_readable fixed_cfg s F st n = Ok b /\ (b = true <-> Readable s (iv s F st) (bv s F st) n).
+Proof.
+  intros s rank F st n Hac HF Ev NC.
+  destruct (readable_total_fuel s rank Hac F HF st fixed_cfg F n (HF n) Ev NC) as [b Hb].
+  exists b; split; [exact Hb|]. rewrite <- (readable_iff s rank F st n Hac HF), Hb.
+  split; [intros ->; reflexivity | intros [=]; assumption].
+Qed.
+
+Theorem readable_false_iff : forall s rank F st n, Acyclic s rank -> (forall m, rank m < F) ->
+  Evaluable s (iv s F st) (bv s F st) n -> kind_of s n <> KCommand ->
+  (is_readable fixed_cfg s F st n = Ok false <-> ~ Readable s (iv s F st) (bv s F st) n).
+Proof.
+  intros s rank F st n Hac HF Ev NC.
+  destruct (readable_exactly s rank F st n Hac HF Ev NC) as (b & Hb & Hi). rewrite Hb.
+  destruct b; split; intros H; try discriminate; try reflexivity.
+  - exfalso; apply H, Hi; reflexivity.
+  - intros R. apply Hi in R. discriminate.
+Qed.
+
+Theorem writable_exactly : forall s rank F st n, Acyclic s rank -> (forall m, rank m < F) ->
+  Evaluable s (iv s F st) (bv s F st) n ->
+  exists b, is_writable fixed_cfg s F st n = Ok b /\ (b = true <-> Writable s (iv s F st) (bv s F st) n).
+Proof.
+  intros s rank F st n Hac HF Ev.
+  destruct (writable_total_fuel s rank Hac F HF st fixed_cfg F n (HF n) Ev) as [b Hb].
+  exists b; split; [exact Hb|]. split.
+  - intros ->. apply (writable_sound s rank F st n Hac HF Hb).
+  - intros W. pose proof (writable_complete_fuel s rank Hac F HF st F n (HF n) Ev W) as H.
+    rewrite Hb in H. injection H as ->. reflexivity.
+Qed.
+
+Theorem writable_false_iff : forall s rank F st n, Acyclic s rank -> (forall m, rank m < F) ->
+  Evaluable s (iv s F st) (bv s F st) n ->
+  (is_writable fixed_cfg s F st n = Ok false <-> ~ Writable s (iv s F st) (bv s F st) n).
+Proof.
+  intros s rank F st n Hac HF Ev.
+  destruct (writable_exactly s rank F st n Hac HF Ev) as (b & Hb & Hi). rewrite Hb.
+  destruct b; split; intros H; try discriminate; try reflexivity.
+  - exfalso; apply H, Hi; reflexivity.
+  - intros R. apply Hi in R. discriminate.
+Qed.
+
+(* on evaluable stores the iff for is_writable needs no global hypothesis *)
+Theorem writable_iff_evaluable : forall s rank F st n, Acyclic s rank -> (forall m, rank m < F) ->
+  Evaluable s (iv s F st) (bv s F st) n ->
+  (is_writable fixed_cfg s F st n = Ok true <-> Writable s (iv s F st) (bv s F st) n).
+Proof.
+  intros s rank F st n Hac HF Ev. split.
+  - apply (writable_sound s rank F st n Hac HF).
+  - apply (writable_complete_fuel s rank Hac F HF st F n (HF n) Ev).
+Qed.
+
+(* the queries of the pinned code do not fail either *)
+Theorem queries_total : forall c s rank F st n, Acyclic s rank -> (forall m, rank m < F) ->
+  Evaluable s (iv s F st) (bv s F st) n ->
+  (exists b, is_writable c s F st n = Ok b) /\
+  (kind_of s n <> KCommand -> exists b, is_readable c s F st n = Ok b).
+Proof.
+  intros c s rank F st n Hac HF Ev. split.
+  - apply (writable_total_fuel s rank Hac F HF st c F n (HF n) Ev).
+  - intros NC. apply (readable_total_fuel s rank Hac F HF st c F n (HF n) Ev NC).
+Qed.
+
+(* ================================================================== real stores are evaluable *)
+(* a store whose nodes refer to earlier nodes only is acyclic *)
+Lemma topological_acyclic : forall s,
+  (forall n nd m, nth_error s n = Some nd -> In m (refs nd) -> m < n) ->
+  Acyclic s (fun n => Nat.min n (length s)).
+Proof.
+  intros s H n nd m E Hin. pose proof (H n nd m E Hin).
+  assert (n < length s) by (apply nth_error_Some; congruence). lia.
+Qed.
+
+(* N0 an IntReg (a controlling / index register), N1 a Boolean holding its value, N2 an Integer over
+   N0 that N1 locks and N0 makes available, N3 a SwissKnife over N2 and N0, N4 an Integer choosing by
+   N0 between N2 and an own value, N5 a Command writing to N2.  In [st1] every leaf holds 1: N0 = 1,
+   N1 = true, so N2 is locked. *)
+Definition ev_store : store :=
+  [ N KIntReg RW RW None None None (VOne (IImm 0)) 0 [] 1 0;
+    N KBoolean RW RO None None None (VOne (ISlot 0)) 0 [] 1 0;
+    N KInteger RW RO None (Some 0) (Some 1) (VPValue 0 []) 0 [] 1 0;
+    N KSwissKnife RW RO None None None (VOne (IImm 0)) 0 [2; 0] 1 0;
+    N KInteger RW RO None None None (VPIndex 0 [(1%Z, INode 2)] (ISlot 1)) 0 [] 1 0;
+    N KCommand RW RO None None None (VOne (INode 2)) 0 [] 1 0 ].
+Definition st1 : state := fun _ _ => Ok 1%Z.
+
+Lemma ev_store_acyclic : Acyclic ev_store (fun n => Nat.min n 6).
+Proof.
+  apply (topological_acyclic ev_store). intros n nd m E Hin.
+  do 6 (destruct n as [|n]; [inversion E; subst; simpl in Hin; intuition lia|]).
+  destruct n; discriminate.
+Qed.
+
+Ltac decided_tac :=
+  first [ left; split; [reflexivity | vm_compute; discriminate]
+        | right; split; [exact I | vm_compute; discriminate] ].
+Ltac ctls_tac :=
+  let c := fresh "c" in let H := fresh "H" in
+  intros c [H|[H|H]]; simpl in H; try discriminate; injection H as <-; decided_tac.
+
+Lemma ev_store_evaluable : forall n, n < 6 ->
+  Evaluable ev_store (iv ev_store 7 st1) (bv ev_store 7 st1) n.
+Proof.
+  assert (E0 : Evaluable ev_store (iv ev_store 7 st1) (bv ev_store 7 st1) 0).
+  { eapply Ev_node; [reflexivity| |simpl; intros m []].
+    split; [exact I|]. split; [ctls_tac|exact I]. }
+  assert (E1 : Evaluable ev_store (iv ev_store 7 st1) (bv ev_store 7 st1) 1).
+  { eapply Ev_node; [reflexivity| |simpl; intros m []].
+    split; [exact I|]. split; [ctls_tac|]. exists (ISlot 0); split; [reflexivity|]. intros m [=]. }
+  assert (E2 : Evaluable ev_store (iv ev_store 7 st1) (bv ev_store 7 st1) 2).
+  { eapply Ev_node; [reflexivity| |simpl; intros m [<-|[<-|[<-|[]]]]; assumption].
+    split; [exact I|]. split; [ctls_tac|]. simpl. intros m [->|[]]. vm_compute. auto. }
+  assert (E3 : Evaluable ev_store (iv ev_store 7 st1) (bv ev_store 7 st1) 3).
+  { eapply Ev_node; [reflexivity| |simpl; intros m [<-|[<-|[]]]; assumption].
+    split; [exact I|]. split; [ctls_tac|]. simpl. intros m [<-|[<-|[]]]; vm_compute; auto. }
+  assert (E4 : Evaluable ev_store (iv ev_store 7 st1) (bv ev_store 7 st1) 4).
+  { eapply Ev_node; [reflexivity| |simpl; intros m [<-|[<-|[]]]; assumption].
+    split; [exact I|]. split; [ctls_tac|]. simpl.
+    split; [exact I|]. split; [vm_compute; discriminate|]. split.
+    - intros j e [[= <- <-]|[]] m [= <-]. vm_compute. auto.
+    - intros m [=]. }
+  assert (E5 : Evaluable ev_store (iv ev_store 7 st1) (bv ev_store 7 st1) 5).
+  { eapply Ev_node; [reflexivity| |simpl; intros m [<-|[]]; assumption].
+    split; [exact I|]. split; [ctls_tac|]. exists (INode 2); split; [reflexivity|].
+    intros m [= <-]. vm_compute. auto. }
+  intros n Hn. do 6 (destruct n as [|n]; [assumption|]). lia.
+Qed.
+
+(* non-vacuity of the total characterisation: the hypotheses hold, the locked Integer N2 and the
+   features over it (N4 selects it, N5 writes it) answer Ok(false) — so they are not Writable —
+   while everything is readable *)
+Theorem evaluable_example :
+  Acyclic ev_store (fun n => Nat.min n 6) /\ (forall m, Nat.min m 6 < 7) /\
+  (forall n, n < 6 -> Evaluable ev_store (iv ev_store 7 st1) (bv ev_store 7 st1) n) /\
+  map (fun n => is_writable fixed_cfg ev_store 7 st1 n) [0; 1; 2; 3; 4; 5]
+    = [Ok true; Ok true; Ok false; Ok false; Ok false; Ok false] /\
+  map (fun n => is_readable fixed_cfg ev_store 7 st1 n) [0; 1; 2; 3; 4]
+    = [Ok true; Ok true; Ok true; Ok true; Ok true] /\
+  ~ Writable ev_store (iv ev_store 7 st1) (bv ev_store 7 st1) 4 /\
+  Writable ev_store (iv ev_store 7 (upd st1 1 0 (Ok 0%Z))) (bv ev_store 7 (upd st1 1 0 (Ok 0%Z))) 2.
+Proof.
+  assert (B : forall m, Nat.min m 6 < 7) by (intros; lia).
+  split; [exact ev_store_acyclic|]. split; [exact B|]. split; [exact ev_store_evaluable|].
+  split; [vm_compute; reflexivity|]. split; [vm_compute; reflexivity|]. split.
+  - apply (writable_false_iff _ _ _ _ _ ev_store_acyclic B (ev_store_evaluable 4 ltac:(lia))).
+    vm_compute. reflexivity.
+  - apply (writable_sound _ _ _ _ _ ev_store_acyclic B). vm_compute. reflexivity.
+Qed.
